@@ -123,7 +123,7 @@ def save_expected(e):
 def finish(a, ev, t0, violations, undecided, known=None, record=False):
     from vx import replay
     os.makedirs(os.path.join(VERIF, 'evidence'), exist_ok=True)
-    os.makedirs(os.path.join(VERIF, 'out', 'replay'), exist_ok=True)
+    os.makedirs(os.path.join(driver.OUT, 'replay'), exist_ok=True)
     lines = []
     nviol = 0
     for v in violations:
@@ -131,7 +131,7 @@ def finish(a, ev, t0, violations, undecided, known=None, record=False):
         if kf:
             lines.append(f"KNOWN-FINDING: property={a.prop} {kf}")
             continue
-        path = os.path.join(VERIF, 'out', 'replay', f"{a.prop}-{v['unit']}-{v['obligation'].replace('::', '_')}.json")
+        path = os.path.join(driver.OUT, 'replay', f"{a.prop}-{v['unit']}-{v['obligation'].replace('::', '_')}.json")
         rep = replay.make_replay(a.prop, v)
         json.dump(rep, open(path, 'w'), indent=1)
         suffix = '' if rep.get('confirmed_on_real_code') else ' no-failing-input-found'
@@ -147,7 +147,7 @@ def finish(a, ev, t0, violations, undecided, known=None, record=False):
     if ev['coverage']['obligations'] < 1 or ev['coverage']['discharged'] < 1:
         ev['level'] = 'other'
         ev['coverage']['explanation'] = 'no obligation was discharged in this run: ' + '; '.join(undecided)[:2000]
-    json.dump(ev, open(os.path.join(VERIF, 'evidence', a.prop + '.json'), 'w'), indent=1)
+    json.dump(ev, open(os.path.join(os.environ.get('VERIF_EVIDENCE', os.path.join(VERIF, 'evidence')), a.prop + '.json'), 'w'), indent=1)
     for l in lines:
         print(l)
     if nviol:
